@@ -112,13 +112,17 @@ Is404(i) == i = NV + 2
 (* AggregateRegistrationMessage.ValidatorIndices() *)
 Indices(e) == IF e.ver = 0 THEN <<e.v>> ELSE [i \in 1..e.k |-> e.v + i - 1]
 
+(* the named alternatives as one record, so that a single call can also be evaluated under another
+   choice (the trace layer asks which single repair would have changed an observed step) *)
+Modes == [nil |-> NilMode, status |-> StatusMode, batch |-> BatchMode, nonceq |-> NonceQ, cap |-> CountCap, early |-> FlagEarly]
+
 (* msg.Unmarshal + checkStaticRegistrationMessageFields (+ the proposed bound on Count) *)
-StaticOK(e) ==
+StaticOK(m, e) ==
     /\ e.c # "bytes"
     /\ e.ver \in {0, 1}
     /\ e.c \notin {"chain", "addr", "idx63"}
-    /\ ~(e.ver = 1 /\ CountCap > 0 /\ (e.k > CountCap \/ e.k = 0))
-    /\ ~(e.ver = 1 /\ FlagEarly /\ ~AggOn)
+    /\ ~(e.ver = 1 /\ m.cap > 0 /\ (e.k > m.cap \/ e.k = 0))
+    /\ ~(e.ver = 1 /\ m.early /\ ~AggOn)
 
 RowsOfEvent(x) == {[bid |-> x.bid, num |-> x.num, pos |-> x.e.pos, v |-> Indices(x.e)[i], n |-> x.e.n, reg |-> x.e.reg] : i \in 1..Len(Indices(x.e))}
 RECURSIVE RowsOf(_, _)
@@ -129,8 +133,8 @@ Later(a, b) == a.num > b.num \/ (a.num = b.num /\ a.pos > b.pos)
 Latest(rs) == CHOOSE r \in rs : \A q \in rs : q = r \/ Later(r, q) \/ (q.num = r.num /\ q.pos = r.pos)
 
 (* GetValidatorRegistrationNonceBefore(validator, block, tx, log); -1 = pgx.ErrNoRows *)
-NonceBefore(rows, v, num, pos) ==
-    LET rs == IF NonceQ = "conj"
+NonceBefore(m, rows, v, num, pos) ==
+    LET rs == IF m.nonceq = "conj"
               THEN {r \in rows : r.v = v /\ r.num <= num /\ r.pos <= pos}
               ELSE {r \in rows : r.v = v /\ (r.num < num \/ (r.num = num /\ r.pos < pos))}
     IN IF rs = {} THEN -1 ELSE Latest(rs).n
@@ -138,21 +142,19 @@ NonceBefore(rows, v, num, pos) ==
 (* one iteration of the loop of filterEvents for event x = [e, num, bid] with the rows the nonce
    query sees and the state f of the beacon API during the call ("none", "b500", "bdown"):
    "keep" | "skip" | "err" (filterEvents returns an error) | "panic" | "hang" *)
-FilterEvent(x, seen, f) ==
+FilterEvent(m, x, seen, f) ==
     LET e == x.e
         idx == Indices(e)
         is == {idx[i] : i \in 1..Len(idx)}
-    IN IF ~StaticOK(e) THEN "skip"
-       ELSE IF e.ver = 1 /\ e.k >= BigK THEN "hang"                       \* CountCap = 0 here
-       ELSE IF is = {} THEN                                                \* Count = 0: no lookup, no key
-            (IF e.c = "sigbytes" THEN "skip"
-             ELSE "skip")                                                  \* version 1: AggregateVerify of nothing is false; flag off: incompatible
+    IN IF ~StaticOK(m, e) THEN "skip"
+       ELSE IF e.ver = 1 /\ e.k >= BigK THEN "hang"                       \* no bound on Count here
+       ELSE IF is = {} THEN "skip"     \* Count = 0: no lookup, no key; AggregateVerify of nothing is false / flag off: incompatible
        ELSE IF f = "bdown" THEN "err"
-       ELSE IF f = "b500" THEN (IF StatusMode = "panic" THEN "panic" ELSE "err")
-       ELSE IF (\E i \in is : Is404(i)) /\ NilMode = "panic" THEN "panic"
+       ELSE IF f = "b500" THEN (IF m.status = "panic" THEN "panic" ELSE "err")
+       ELSE IF (\E i \in is : Is404(i)) /\ m.nil = "panic" THEN "panic"
        ELSE LET nf == \E i \in is : Is404(i)                               \* nil answer: nobody known
                 pass(i) == /\ e.n # HugeN
-                           /\ e.n > NonceBefore(seen, i, x.num, e.pos)
+                           /\ e.n > NonceBefore(m, seen, i, x.num, e.pos)
                            /\ Known(i) /\ ~nf
             IN IF \E i \in is : ~pass(i) THEN "skip"
                ELSE IF e.c = "sigbytes" THEN "skip"
@@ -160,30 +162,31 @@ FilterEvent(x, seen, f) ==
                ELSE IF AggOn THEN (IF e.c = "sig" THEN "skip" ELSE "keep")
                ELSE "skip"
 
-RECURSIVE FilterFold(_, _, _, _, _)
-FilterFold(evs, i, db, acc, f) ==
+RECURSIVE FilterFold(_, _, _, _, _, _)
+FilterFold(m, evs, i, db, acc, f) ==
     IF i > Len(evs) THEN [out |-> "ok", keep |-> acc]
-    ELSE LET seen == IF BatchMode = "batch" THEN db \cup RowsOf(acc, 1) ELSE db
-             r == FilterEvent(evs[i], seen, f)
+    ELSE LET seen == IF m.batch = "batch" THEN db \cup RowsOf(acc, 1) ELSE db
+             r == FilterEvent(m, evs[i], seen, f)
          IN IF r \in {"err", "panic", "hang"} THEN [out |-> r, keep |-> <<>>]
-            ELSE FilterFold(evs, i + 1, db, IF r = "keep" THEN Append(acc, evs[i]) ELSE acc, f)
+            ELSE FilterFold(m, evs, i + 1, db, IF r = "keep" THEN Append(acc, evs[i]) ELSE acc, f)
 
 (* syncRange(start, end): fetch, filter, header of end, ONE transaction (rows + position) *)
-SyncRange(blk, h, st, lo, hi, f) ==
-    LET r == FilterFold(EventsIn(blk, h, lo, hi), 1, st.rows, <<>>, f) IN
+SyncRange(m, blk, h, st, lo, hi, f) ==
+    LET r == FilterFold(m, EventsIn(blk, h, lo, hi), 1, st.rows, <<>>, f) IN
     IF r.out # "ok" THEN [st |-> st, ret |-> r.out]
     ELSE [st |-> St(Sy(TRUE, hi, CanonAt(blk, h, hi)), st.rows \cup RowsOf(r.keep, 1)), ret |-> "ok"]
 
-RECURSIVE RunRanges(_, _, _, _, _, _)
-RunRanges(blk, h, st, rs, i, f) ==
+RECURSIVE RunRanges(_, _, _, _, _, _, _)
+RunRanges(m, blk, h, st, rs, i, f) ==
     IF i > Len(rs) THEN [st |-> st, ret |-> "ok"]
-    ELSE LET r == SyncRange(blk, h, st, rs[i][1], rs[i][2], f) IN
-         IF r.ret # "ok" THEN r ELSE RunRanges(blk, h, r.st, rs, i + 1, f)
+    ELSE LET r == SyncRange(m, blk, h, st, rs[i][1], rs[i][2], f) IN
+         IF r.ret # "ok" THEN r ELSE RunRanges(m, blk, h, r.st, rs, i + 1, f)
 
 (* Sync(ctx, header with number tgt) while h is the node's canonical head (SyncStartBlockNumber = 0) *)
-Run(blk, h, st, tgt, f) ==
+RunM(m, blk, h, st, tgt, f) ==
     LET start == IF st.synced.has THEN st.synced.num + 1 ELSE 0 IN
-    RunRanges(blk, h, st, Ranges(start, tgt, MaxR), 1, f)
+    RunRanges(m, blk, h, st, Ranges(start, tgt, MaxR), 1, f)
+Run(blk, h, st, tgt, f) == RunM(Modes, blk, h, st, tgt, f)
 
 (* isProposerRegistered -> IsValidatorRegistered(validator, block_number < nb); ErrNoRows = FALSE *)
 Decide(rows, v, nb) ==
